@@ -13,7 +13,11 @@ reads; everything after `|` is reconstruction data):
   c17scan      <obs> <pssm alpha> <seq alpha> | <backend> <thr bits> <block> <L> <symbols> <pssm>
   c17create    <obs> <alpha> <n> <item>*n
   c17stripe    <obs> <alpha> <text hex>
-  c17load      <obs> <file kind> <format hex> <protein> <n> (<kind> <obs>)*n | <hex file>
+  c17load      <obs> <file kind> <format hex> <protein> <n> (<kind> <obs>)*n | <hex file> [<chunk seed> <record boundaries b1,b2,… | ->]
+                 file kind := path | missing | binary (io.BytesIO) | text | noread
+                            | chunked  (a file-like class whose read(n) returns 1..min(n, 64) bytes, sometimes exactly up to a record boundary)
+                            | boundary (… whose read(n) returns exactly up to the next record boundary)
+                            | bytearray | memoryview (… whose read returns that type instead of bytes)
   c17cminit    <alpha> <column>*K
   c17sminit    <alpha> <pyarg> <column>*K
 
@@ -758,6 +762,44 @@ def exec_stripe(cx, head, tail):
 
 
 # ------------------------------------------------------------------ c17load
+class ShortReader:
+    """a binary file-like object that is neither a path nor an io class: read(n) returns FEWER than n
+    bytes before the end of the data (legal for a raw stream; only b"" means end of file).
+      chunked  : 1..min(n, 64) bytes (seeded), one time in three exactly up to the next record boundary
+      boundary : exactly up to the next record boundary (the rest of the data after the last one)
+    `wrap` converts what read returns (bytes, bytearray, memoryview)."""
+
+    def __init__(self, data, mode, seed, cuts, wrap=bytes):
+        self.data, self.pos, self.mode, self.wrap = data, 0, mode, wrap
+        self.rng = common.Rng(seed)
+        self.cuts = sorted(c for c in cuts if 0 < c < len(data)) + [len(data)]
+        self.calls = 0
+        self.short = 0      # reads that returned fewer bytes than asked although data was left
+
+    def read(self, n=-1):
+        self.calls += 1
+        left = len(self.data) - self.pos
+        if n is None or n < 0:
+            n = left
+        n = min(n, left)
+        if n > 0:
+            to_cut = next(c for c in self.cuts if c > self.pos) - self.pos
+            if self.mode == "boundary":
+                k = min(n, to_cut)
+            elif self.rng.chance(1, 3) and to_cut <= n:
+                k = to_cut
+            else:
+                k = self.rng.range(1, min(n, 64))
+            if k < n:
+                self.short += 1
+            n = k
+        out = self.data[self.pos:self.pos + n]
+        self.pos += n
+        return self.wrap(out)
+
+
+FILELIKE = ("binary", "chunked", "boundary")          # read(0) returns bytes: accepted
+NOT_BYTES = ("text", "bytearray", "memoryview")        # read(0) returns something else: TypeError
 READERS = {"jaspar": "readJaspar", "jaspar16": "readJaspar16", "transfac": "readTransfac", "uniprobe": "readUniprobe"}
 FROM_COUNTS = ".pseudoUniform.toFreq.toWeight.toScoring.motif"
 
@@ -775,6 +817,9 @@ def exec_load(cx, head, tail):
     fmt = (b"" if head[3] == "-" else bytes.fromhex(head[3])).decode()
     protein = head[4] == "1"
     data = b"" if tail[0] == "-" else bytes.fromhex(tail[0])
+    cseed = int(tail[1]) if len(tail) > 1 else 0
+    cuts = [int(x) for x in tail[2].split(",")] if len(tail) > 2 and tail[2] != "-" else []
+    extra = "".join(" " + x for x in tail[1:3])
     alpha = "protein" if protein else "dna"
     tmp = None
     if kind in ("path", "missing"):
@@ -789,24 +834,28 @@ def exec_load(cx, head, tail):
         fobj = _io.BytesIO(data)
     elif kind == "text":
         fobj = _io.StringIO(data.decode("latin-1"))
+    elif kind in ("chunked", "boundary"):
+        fobj = ShortReader(data, kind, cseed, cuts)
+    elif kind in ("bytearray", "memoryview"):
+        fobj = ShortReader(data, "chunked", cseed, cuts, wrap=(bytearray if kind == "bytearray" else memoryview))
     else:
         fobj = 12345
     errs, key = [], f"load/{fmt if fmt in READERS else 'other'}/{kind}"
     core_all = None
-    if kind in ("path", "binary") and fmt in READERS and not (fmt == "jaspar" and protein):
+    if kind in ("path",) + FILELIKE and fmt in READERS and not (fmt == "jaspar" and protein):
         core_all = cx.core.ask("auto", "load", alpha, f"{fmt} {hexs(data)}")
     if core_all in ("hang", "died"):
         # the core reader does not terminate on this input (C15): Python is not run; not applicable to C17
         if tmp:
             os.unlink(tmp)
-        line = f"c17load ok:{READERS[fmt]} {kind} {hexs(fmt)} {1 if protein else 0} 0 | {hexs(data)}"
+        line = f"c17load ok:{READERS[fmt]} {kind} {hexs(fmt)} {1 if protein else 0} 0 | {hexs(data)}{extra}"
         return " ".join(line.split()), "adm-ok", None, False, "excluded/core-reader-" + core_all
     g = guarded(lambda: cx.lm.load(fobj, fmt, protein=protein))
     # expected outcome of opening, by the documented order: the file first, then the format
     expect = None
     if kind == "missing":
         expect = ("FileNotFoundError", "OSError")
-    elif kind == "text":
+    elif kind in NOT_BYTES:
         expect = ("TypeError",)
     elif kind == "noread":
         expect = ("AttributeError", "TypeError")
@@ -867,8 +916,11 @@ def exec_load(cx, head, tail):
     if tmp:
         os.unlink(tmp)
     line = (f"c17load {init_obs} {kind} {hexs(fmt)} {1 if protein else 0} {len(recs)} "
-            + " ".join(f"{k} {o}" for k, o in recs) + f" | {hexs(data)}")
-    return " ".join(line.split()), "adm-ok", verdict(errs), len(recs) >= 2, key
+            + " ".join(f"{k} {o}" for k, o in recs) + f" | {hexs(data)}{extra}")
+    if kind in ("chunked", "boundary") and g[0] == "ok":
+        cx.out.stat("load/short-reads", fobj.short)
+    nontrivial = len(recs) >= 2 or (kind in ("chunked", "boundary") and len(recs) >= 1 and fobj.short >= 1)
+    return " ".join(line.split()), "adm-ok", verdict(errs), nontrivial, key
 
 
 # ------------------------------------------------------------------ c17cminit / c17sminit (exact answers)
@@ -1118,6 +1170,20 @@ def render_file(fmt, alpha, recs, rng):
     return "".join(out).encode()
 
 
+def boundaries(fmt, alpha, recs, rng):
+    """offsets at which a record of the rendered file ends"""
+    return [len(render_file(fmt, alpha, recs[:i], rng)) for i in range(1, len(recs))]
+
+
+def load_cases(rng, fmt, prot, data, cuts):
+    """the same bytes through every way of handing a file to load(): a path, io.BytesIO, file-like
+    objects with short reads (random chunks / chunks ending on record boundaries), and a file-like
+    object whose read returns bytearray / memoryview"""
+    c = ",".join(str(x) for x in cuts) or "-"
+    kinds = ["path", "binary", "chunked", "boundary", rng.pick(["bytearray", "memoryview"])]
+    return [f"c17load ? {k} {hexs(fmt)} {prot} 0 | {hexs(data)} {rng.below(1 << 32)} {c}" for k in kinds]
+
+
 def generate(cfg, core, out):
     rng = common.Rng(cfg.seed ^ 0xC17)
     cases = []
@@ -1310,15 +1376,15 @@ def generate(cfg, core, out):
             if r in ("hang", "died"):
                 out.stat("excluded/core-reader-" + r)
                 continue
-            kind = ["path", "binary", "binary"][rep % 3]
-            cases.append(f"c17load ? {kind} {hexs(fmt)} 0 0 | {hexs(data)}")
+            cuts = boundaries(fmt, "dna", recs, rng)
+            cases += load_cases(rng, fmt, 0, data, cuts)
             if rep == 0:
                 # a damaged copy: the error of the core reader must surface as an ordinary exception
                 k = max(i for i, ch in enumerate(data) if chr(ch).isdigit())
                 for cut in (data[:k] + b"q" + data[k + 1:], data[: len(data) * 2 // 3]):
                     r = core.ask("auto", "load", "dna", f"{fmt} {hexs(cut)}")
                     if r not in ("hang", "died"):
-                        cases.append(f"c17load ? binary {hexs(fmt)} 0 0 | {hexs(cut)}")
+                        cases += load_cases(rng, fmt, 0, cut, cuts)[:4]
                     else:
                         out.stat("excluded/core-reader-" + r)
         cases.append(f"c17load ? missing {hexs(fmt)} 0 0 | -")
@@ -1326,11 +1392,11 @@ def generate(cfg, core, out):
     for kind, fmt, prot in [("text", "jaspar16", 0), ("noread", "jaspar16", 0), ("binary", "foo", 0), ("binary", "", 0),
                             ("binary", "jaspar", 1), ("path", "JASPAR", 0), ("missing", "foo", 0)]:
         cases.append(f"c17load ? {kind} {hexs(fmt)} {prot} 0 | {hexs(small)}")
-    prot_recs = [("P1", "", [[rng.below(9) for _ in range(20)] + [0] for _ in range(3)])]
+    prot_recs = [(f"P{i}", "", [[rng.below(9) for _ in range(20)] + [0] for _ in range(3)]) for i in (1, 2)]
     for fmt in ("jaspar16", "transfac", "uniprobe"):
         data = render_file(fmt, "protein", prot_recs, rng)
         if core.ask("auto", "load", "protein", f"{fmt} {hexs(data)}") not in ("hang", "died"):
-            cases.append(f"c17load ? binary {hexs(fmt)} 1 0 | {hexs(data)}")
+            cases += load_cases(rng, fmt, 1, data, boundaries(fmt, "protein", prot_recs, rng))
     # ---- random stream
     count = (400 if big else 40) * cfg.boost
     for _ in range(count):
